@@ -115,7 +115,7 @@ def make_case(rng, quick=True):
     pre = []
     if present and rng.random() < 0.35:
         for ix in rng.sample(sorted(present), rng.randint(1, min(2, len(present)))):
-            if rng.random() < 0.3:
+            if rng.random() < 0.4:
                 v = rng.randrange(size_dict[ix])
                 tree.remove_ind_(ix, project=v)
                 pre.append((ix, v))
@@ -129,6 +129,74 @@ OVERHEADS = [Fraction(1, 2), Fraction(1), Fraction(9, 8), Fraction(5, 4), Fracti
              Fraction(3), Fraction(4), Fraction(8), Fraction(64)]
 
 
+NONDYADIC = [0.9, 1.1, 1.3, 1.7, 2.3, 3.14159, 1.0000001, 0.3333333333333333, 5.1, 10.01]
+
+
+def boundary_overhead(rng, tree):
+    import math
+    from cotengra.slicer import ContractionCosts
+    try:
+        c = ContractionCosts.from_contraction_tree(tree)
+        cands = sorted(c._where)
+        if not cands or c.original_flops == 0:
+            return 1.5
+        c1 = c
+        for ix in rng.sample(cands, min(len(cands), rng.choice([1, 1, 2]))):
+            if ix not in c1._where:
+                continue
+            c1._flop_reductions[ix], c1._write_reductions[ix]   # what score_slice_index does first
+            c1 = c1.remove(ix)
+        f = c1.overhead
+        k = rng.choice([0, 0, 1, -1])
+        if k == 1:
+            f = math.nextafter(f, math.inf)
+        elif k == -1:
+            f = math.nextafter(f, 0.0)
+        return f if f > 0 else 1.5
+    except Exception:
+        return 1.5
+
+
+FP53 = 2 ** 53
+FB = 2 ** 1000
+
+
+def over_safe(cost, t):
+    """Python twin of Model/SlicerCosts.v over_safe_b (pre-filter; the Coq evaluation is the one that counts)"""
+    a, b = cost.total_flops, cost.original_flops
+    num, den = t.numerator, t.denominator
+    return (1 <= a < FB and 1 <= b < FB and den > 0 and
+            (a * den <= num * b or num * b * FP53 < a * den * (FP53 - 1)))
+
+
+def make_overrides(ctx, rng, tg):
+    """per-call arguments of search(): tighter or looser than the construction-time target of the
+    same kind, and / or a target of a kind the finder was not constructed with"""
+    ov = {}
+    while not ov:
+        for kind in ("target_size", "target_slices", "target_overhead"):
+            if kind in tg and rng.random() < 0.5:
+                cur = tg[kind]
+                tighter = rng.random() < 0.6
+                if kind == "target_size":
+                    ov[kind] = max(1, cur // rng.choice([2, 3, 4, 8, 32])) if tighter else cur * rng.choice([2, 4, 16])
+                elif kind == "target_slices":
+                    ov[kind] = cur * rng.choice([2, 3, 4, 12]) if tighter else max(1, cur // rng.choice([2, 3, 4]))
+                else:
+                    f = Fraction(rng.choice([4, 5, 6, 7]), 8) if tighter else Fraction(rng.choice([5, 8, 16, 33]), 4)
+                    ov[kind] = Fraction(float(cur * f))
+                ctx.count("override:%s:%s" % (kind[7:], "tighter" if tighter else "looser"))
+            elif kind not in tg and rng.random() < 0.25:
+                if kind == "target_size":
+                    ov[kind] = rng.choice([1, 2, 4, 8, 16, 64])
+                elif kind == "target_slices":
+                    ov[kind] = rng.choice([2, 3, 4, 6, 8, 12, 24])
+                else:
+                    ov[kind] = Fraction(rng.choice([1.0, 1.25, 1.5, 2.0, 3.0, 1.1, 2.3]))
+                ctx.count("override:%s:new_kind" % kind[7:])
+    return ov
+
+
 def make_params(rng, tree):
     kinds = rng.choice([("size",)] * 4 + [("slices",)] * 3 + [("overhead",)] * 3 +
                        [("size", "slices"), ("size", "overhead"), ("slices", "overhead"),
@@ -140,7 +208,15 @@ def make_params(rng, tree):
     if "slices" in kinds:
         tg["target_slices"] = rng.choice([1, 2, 2, 3, 4, 4, 6, 8, 9, 12, 16, 30])
     if "overhead" in kinds:
-        tg["target_overhead"] = rng.choice(OVERHEADS)
+        r = rng.random()
+        if r < 0.45:
+            tg["target_overhead"] = rng.choice(OVERHEADS)
+        elif r < 0.75:
+            # non-dyadic decimal targets: the code sees the nearest float, the model its exact value
+            tg["target_overhead"] = Fraction(rng.choice(NONDYADIC))
+        else:
+            # boundary targets: the float overhead of an actual one-index slicing (or a neighbour)
+            tg["target_overhead"] = Fraction(boundary_overhead(rng, tree))
     ao = rng.choice([True, True, False, False, "only", "only"])
     minimize = rng.choice(["flops", "size", "write", "combo", "limit", "combo-64", "limit-4"])
     temperature = rng.choice([0.0, 0.01, 0.01, 0.3, 1.0, 5.0])
@@ -221,7 +297,11 @@ def targets_hold(tg, size, flops_after, flops_before, mult_after, mult_before):
         bad.append("size %r > target_size %r" % (size, tg["target_size"]))
     if "target_slices" in tg and not (mult_after >= tg["target_slices"] * mult_before):
         bad.append("slices %r (on top of %r) < target_slices %r" % (mult_after, mult_before, tg["target_slices"]))
-    if "target_overhead" in tg and not (Fraction(flops_after) <= tg["target_overhead"] * flops_before):
+    t = tg.get("target_overhead")
+    # a violation only when the exact quotient exceeds the target by more than the rounding error of
+    # the code's float division (inside that band the float test may legitimately say "<=")
+    if t is not None and (t.numerator * flops_before * FP53
+                          < flops_after * t.denominator * (FP53 - 1)):
         bad.append("total flops %r > target_overhead %s x %r" % (flops_after, tg["target_overhead"], flops_before))
     return bad
 
@@ -265,64 +345,92 @@ def run_case(ctx, rng, ci, cases, records, scratch_cases):
     dfs_nodes = [p for p, _, _ in tree.traverse()]
     dfs_of_real = [dfs_nodes.index(nd) for nd in real_nodes]
 
-    # ---- the real search, recorded ------------------------------------------------
-    REC.trials = []
+    # ---- the real searches, recorded: a sequence of search(...) calls on ONE SliceFinder, with
+    # and without per-call target overrides (the cache of the object persists across calls) ----
+    first_plain = rng.random() < 0.65
+    calls = [({} if first_plain else make_overrides(ctx, rng, tg), repeats)]
+    for _ in range(rng.choice([0, 0, 1, 1, 2])):
+        calls.append((make_overrides(ctx, rng, tg), rng.choice([1, 1, 2, 3])))
+    rec["calls"] = [({k: str(v) for k, v in ov.items()}, r) for ov, r in calls]
     sf = SliceFinder(tree, allow_outer=ao, seed=seed, minimize=minimize, temperature=temperature, **fl(tg))
-    result = None
-    kind = 0
-    try:
-        result = sf.search(repeats)
-    except Exception as e:
-        kind = exc_kind(e)
-        if kind is None:
-            ctx.fail("SliceFinder.search raised an unexpected exception %r" % (e,), rec)
-            return
-    trials = REC.trials
-    REC.trials = None
-    ctx.count("search:" + {0: "returned", 1: "RuntimeError(no valid index)", 2: "KeyError(exhausted index)",
-                            3: "ValueError(max of empty)", 4: "ValueError(no valid slicing)"}[kind])
+    done = []     # per executed call: dict(ov, eff, kind, result, trials, snapshot)
+    for ov, reps in calls:
+        REC.trials = []
+        result, kind = None, 0
+        try:
+            result = sf.search(reps, **fl(ov))
+        except Exception as e:
+            kind = exc_kind(e)
+            if kind is None:
+                REC.trials = None
+                ctx.fail("SliceFinder.search raised an unexpected exception %r" % (e,), rec)
+                return
+        trials = REC.trials
+        REC.trials = None
+        eff = dict(tg)
+        eff.update(ov)
+        done.append({"ov": ov, "eff": eff, "kind": kind, "result": result, "trials": trials,
+                     "snapshot": list(sf.costs.items())})
+        ctx.count("search:" + {0: "returned", 1: "RuntimeError(no valid index)", 2: "KeyError(exhausted index)",
+                                3: "ValueError(max of empty)", 4: "ValueError(no valid slicing)"}[kind])
+        ctx.count("call:" + ("override" if ov else "plain") + (":later" if len(done) > 1 else ":first"))
+        if kind not in (0, E_MIN_EMPTY):
+            break      # the trials raised: the object's cache is in a state the model does not track
+    kind, result, trials = done[0]["kind"], done[0]["result"], done[0]["trials"]
+
+    # ---- float vs exact overhead comparison: only cases where both provably agree ----
+    for d in done:
+        if "target_overhead" in d["eff"]:
+            tv = d["eff"]["target_overhead"]
+            ctx.count("overhead_target:" + ("dyadic" if tv.denominator <= 64 else "non-dyadic"))
+            if not all(over_safe(c, tv) for _, c in d["snapshot"]):
+                # the float quotient is within rounding error of the target: the code's answer is
+                # then a matter of float rounding, outside the model (and outside the exact oracle)
+                ctx.count("overhead_unsafe(skipped)")
+                return
 
     # ---- model replay (evaluated inside Coq) --------------------------------------
     I = gen.IDX
-    oracles = [[I[x] for x in t["choices"]] for t in trials]
     netl = gen.net_lit(inputs, output, size_dict)
     sl_model = [(I[k], (None if si.project is None else Some(si.project))) for k, si in tree.sliced_inds.items()]
     sll = "[" + "; ".join("mkSl %d %s" % (i, coq(p)) for i, p in sl_model) + "]"
     tl = tree_lit(nested)
     aol = {True: "AoTrue", False: "AoFalse", "only": "AoOnly"}[ao]
-    ts = Some(Z(tg["target_size"])) if "target_size" in tg else None
-    tsl = Some(Z(tg["target_slices"])) if "target_slices" in tg else None
-    tov = Some((Z(tg["target_overhead"].numerator), Z(tg["target_overhead"].denominator))) \
-        if "target_overhead" in tg else None
-    fdl = "(finder_of_tree %s %s %s %s %s %s %s)" % (netl, sll, tl, aol, coq(ts), coq(tov), coq(tsl))
-    lhs = "(obs_search %s %s)" % (fdl, coq(oracles) if oracles else "[]")
-    stray_all = []
-    if kind == 0:
-        tr_obs = []
-        for t in trials:
-            tr_obs.append(obs_pred(key_of(sf, t["ret"]), t["ret"]))
-        ch_obs = []
-        for k, c in sf.costs.items():
-            o, stray = obs_costs(c, dfs_of_real)
-            stray_all += stray
-            ch_obs.append((sorted(I[x] for x in k), o))
-        rhs_t = (0, tr_obs, ch_obs, (0, Some(obs_pred(result[0], result[1]))))
-    elif kind == E_MIN_EMPTY:
-        tr_obs = [obs_pred(key_of(sf, t["ret"]), t["ret"]) for t in trials]
-        ch_obs = []
-        for k, c in sf.costs.items():
-            o, stray = obs_costs(c, dfs_of_real)
-            stray_all += stray
-            ch_obs.append((sorted(I[x] for x in k), o))
-        rhs_t = (0, tr_obs, ch_obs, (kind, None))
-    else:
-        rhs_t = (kind, [], [], (kind, None))
-    cases.append(("case%d" % ci, lhs, coq(rhs_t)))
+
+    def tlit(d, k):
+        if k not in d:
+            return None
+        if k == "target_overhead":
+            return Some((Z(d[k].numerator), Z(d[k].denominator)))
+        return Some(Z(d[k]))
+
+    fdl = "(finder_of_tree %s %s %s %s %s %s %s)" % (
+        netl, sll, tl, aol, coq(tlit(tg, "target_size")), coq(tlit(tg, "target_overhead")), coq(tlit(tg, "target_slices")))
+    calls_lit, rhs_calls, stray_all = [], [], []
+    for d in done:
+        oracles = [[I[x] for x in t["choices"]] for t in d["trials"]]
+        ovl = "(%s, (%s, %s))" % (coq(tlit(d["ov"], "target_size")), coq(tlit(d["ov"], "target_overhead")),
+                                  coq(tlit(d["ov"], "target_slices")))
+        calls_lit.append("(%s, %s)" % (ovl, coq(oracles) if oracles else "[]"))
+        if d["kind"] in (0, E_MIN_EMPTY):
+            tr_obs = [obs_pred(key_of(sf, t["ret"]), t["ret"]) for t in d["trials"]]
+            ch_obs = []
+            for k, c in d["snapshot"]:
+                o, stray = obs_costs(c, dfs_of_real)
+                stray_all += stray
+                ch_obs.append((sorted(I[x] for x in k), o))
+            best_obs = (0, Some(obs_pred(d["result"][0], d["result"][1]))) if d["kind"] == 0 else (d["kind"], None)
+            rhs_calls.append(coq((0, tr_obs, ch_obs, best_obs)))
+        else:
+            rhs_calls.append(coq((d["kind"], [], [], (d["kind"], None))))
+    calls_l = "[" + "; ".join(calls_lit) + "]"
+    cases.append(("case%d" % ci, "(obs_calls %s %s (cache0 %s))" % (fdl, calls_l, fdl),
+                  "[" + "; ".join(rhs_calls) + "]"))
     records.append(rec)
-    # certified from-scratch judgement of every cached table of the model
+    # verified checkers inside Coq: theorem hypotheses, from-scratch tables, overhead side condition
     scratch_cases.append(("scratch%d" % ci,
-                          "(hyps_b %s %s %s, search_scratch_b %s %s %s %s %s)" % (
-                              netl, sll, tl, netl, sll, tl, fdl, coq(oracles) if oracles else "[]"),
+                          "(hyps_b %s %s %s, calls_check_b %s %s %s %s %s (cache0 %s))" % (
+                              netl, sll, tl, netl, sll, tl, fdl, calls_l, fdl),
                           "(true, true)"))
     if stray_all:
         ctx.fail("ContractionCosts keeps reduction/_where entries for indices no longer in size_dict: %r"
@@ -335,9 +443,13 @@ def run_case(ctx, rng, ci, cases, records, scratch_cases):
             ctx.fail("slice finder cached a slicing with forbidden indices: " + "; ".join(bad), dict(rec, key=sorted(k)))
 
     nontrivial = False
-    # ---- oracle: the returned prediction against the tree actually sliced ----------
-    if kind == 0:
-        ix_sl, cost = result
+    # ---- oracle: every returned prediction against the tree actually sliced, judged against
+    # the targets OF THE CALL (a given argument wins over the construction-time one) ----------
+    for ci_call, d in enumerate(done):
+        if d["kind"] != 0:
+            continue
+        ix_sl, cost = d["result"]
+        eff = d["eff"]
         chosen = sorted(ix_sl)
         order = list(chosen)
         rng.shuffle(order)
@@ -358,25 +470,40 @@ def run_case(ctx, rng, ci, cases, records, scratch_cases):
             if cost.nslices * base["mult"] != spec["multiplicity"]:
                 bad.append("predicted nslices %r (x incoming %r), sliced tree has %r" % (
                     cost.nslices, base["mult"], spec["multiplicity"]))
-            bad += targets_hold(tg, spec["size"], spec["flops"], base["flops"], spec["multiplicity"], base["mult"])
+            bad += targets_hold(eff, spec["size"], spec["flops"], base["flops"], spec["multiplicity"], base["mult"])
         except CaseTimeout:
             raise
         except Exception as e:
             bad.append("slicing a fresh tree on the returned set raised %r" % (e,))
         if bad:
-            ctx.fail("search returned %r: " % (chosen,) + "; ".join(bad), dict(rec, returned=chosen))
+            ctx.fail("search call %d (constructed with %r, called with %r) returned %r: " % (
+                ci_call, rec["targets"], {k: str(v) for k, v in d["ov"].items()}, chosen) + "; ".join(bad),
+                dict(rec, returned=chosen, call=ci_call))
+        if d["ov"]:
+            ctx.count("override_call:returned")
+            if chosen:
+                ctx.count("override_call:returned_nonempty")
         if chosen:
             ctx.count("returned_nonempty")
             nontrivial = True
         if len(chosen) >= 2:
             ctx.count("returned_2plus")
-        if any(len(t["choices"]) > len(key_of(sf, t["ret"]) or ()) for t in trials if t["ret"] is not None):
+        if any(len(t["choices"]) > len(key_of(sf, t["ret"]) or ()) for t in d["trials"] if t["ret"] is not None):
             ctx.count("overhead_break")
 
     # ---- tree.slice post-conditions ---------------------------------------------
     for reslice in (False, True):
-        if reslice and not (pre and ci % 2 == 0):
+        if reslice and not pre:
             continue
+        tag = "slice(reslice)" if reslice else "slice"
+        if reslice:
+            ctx.count("reslice:cases")
+            if any(v is not None for _, v in pre):
+                ctx.count("reslice:pre_projected")
+            for k in tg:
+                ctx.count("reslice:" + k)
+        elif any(v is not None for _, v in pre):
+            ctx.count("slice:pre_projected")
         try:
             t3 = tree.slice(allow_outer=ao, seed=seed, minimize=minimize, temperature=temperature,
                             max_repeats=repeats, reslice=reslice, **fl(tg))
@@ -386,12 +513,16 @@ def run_case(ctx, rng, ci, cases, records, scratch_cases):
             k3 = exc_kind(e)
             if k3 is None:
                 ctx.fail("tree.slice raised an unexpected exception %r" % (e,), dict(rec, reslice=reslice))
-            elif not reslice and k3 != kind:
+            elif not reslice and first_plain and k3 != kind:
                 ctx.fail("tree.slice raised (kind %r) where SliceFinder.search with the same seed gave kind %r"
                          % (k3, kind), dict(rec, reslice=reslice), found_input=False)
             ctx.count("slice%s:raised" % ("(reslice)" if reslice else ""))
             continue
         ctx.count("slice%s:returned" % ("(reslice)" if reslice else ""))
+        if any(v is not None for _, v in pre):
+            ctx.count("%s:returned:pre_projected" % tag)
+            if "target_overhead" in tg:
+                ctx.count("%s:returned:pre_projected:overhead" % tag)
         bad = []
         st3 = stats_of(t3)
         after = list(t3.sliced_inds)
@@ -406,7 +537,7 @@ def run_case(ctx, rng, ci, cases, records, scratch_cases):
                 bad.append("previously removed indices lost: %r -> %r" % (pre_ix, after))
             bad += forbidden_broken(ao, new, output, ())
             bad += targets_hold(tg, spec3["size"], spec3["flops"], base["flops"], spec3["multiplicity"], base["mult"])
-            if kind == 0 and sorted(new) != sorted(result[0]):
+            if first_plain and kind == 0 and sorted(new) != sorted(result[0]):
                 ctx.fail("tree.slice(seed=s) sliced %r but SliceFinder(seed=s).search returned %r" % (
                     sorted(new), sorted(result[0])), dict(rec, reslice=False), found_input=False)
         else:
@@ -421,8 +552,8 @@ def run_case(ctx, rng, ci, cases, records, scratch_cases):
                      dict(rec, reslice=reslice, sliced_after=after))
 
     ctx.case((inputs, output, tuple(sorted(size_dict.items())), path, tuple(pre), tuple(sorted(rec["targets"].items())),
-              str(ao), minimize, temperature, seed, repeats),
-             nontrivial=nontrivial, sample=dict(rec, returned=sorted(result[0])) if (nontrivial and ci % 7 == 0) else None)
+              str(ao), minimize, temperature, seed, repeats, repr(rec["calls"])),
+             nontrivial=nontrivial, sample=rec if (nontrivial and ci % 7 == 0) else None)
 
 
 def run(ctx):
